@@ -23,7 +23,8 @@ LEVEL_TEXT = ("Every combination of {absent, 4 totals variants} per language for
               "the parsed cells must equal the stored numbers, deltas must appear exactly when figures differ, both formats must agree, "
               "ordering / cut-off / 'more rows' message must be exact. Exhaustive within the bounds.")
 LEVEL_NOTE = ("Bounds in evidence.bounds. For a language absent from the previous report only the base figure is checked (the property speaks about "
-              "languages present in both). No totals row is required when fewer than two languages are shown.")
+              "languages present in both). No totals row is required when fewer than two languages are shown."
+              " Pairs are rendered through print_report with comparison reports from another checkout path; findings on 9- and 50-line terminals; command trees in a fresh interpreter per terminal width (250, 80).")
 
 VARIANTS = [(1, 2, 30, 0, 0), (2, 3, 30, 1, 0), (3, 1, 1200, 1, 2), (1, 2, 45, 0, 1)]  # files, functions, loc, hard, unmaintainable
 # two triples: one name a prefix of another (Java / JavaScript), and names that differ only in punctuation (C / C++ / C#)
